@@ -277,6 +277,7 @@ def check_multi(ctx, fam, W, policy, kills, d, d2, res, res2):
         ctx.fail("C06:determinism:two-runs-differ", f"{tag}: {diff['file']} line {diff['line']}: {diff['other']!r} vs {diff['ref']!r}",
                  dict(rep, first_difference=diff))
     log = read_log(d)
+    leg_predicates(ctx, fam, W, log, tag, rep)
     if [job_key(s) for s in log if s["ev"] == "submit"] != [job_key(s) for s in read_log(d2) if s["ev"] == "submit"]:
         ctx.fail("C06:determinism:two-runs-differ", f"{tag}: the two runs issued different jobs", rep)
     # split the log into legs
@@ -413,10 +414,24 @@ def plan(ctx):
                         continue
                     multi.append((dict(base, seed=seed, N=N), W, policy, kills))
             multi.append((dict(lat, seed=seed, N=10), 3, "rand:7", ()))
+        # fewer steps left than workers at the restart, and fresh runs shorter than the number of workers
+        multi.append((dict(lat, seed=seed, N=12), 3, "lifo", (11,)))
+        multi.append((dict(lat5, seed=seed, N=12), 4, f"rand:{rng.randrange(10 ** 9)}", (5, 10)))
+        multi.append((dict(lat, seed=seed, N=2), 3, "fifo", ()))
+        multi.append((dict(lat5, seed=seed, N=3), 4, "lifo", (1,)))
     for seed, W in (((1, 3),) if q else ((0, 2), (1, 3), (2, 5), (3, 7))):
         multi.append((dict(tu, seed=seed, N=12), W, "lifo", (3, 6, 9)))
         multi.append((dict(tu, seed=seed, N=12), W, f"rand:{rng.randrange(10 ** 9)}", (4, 8)))
-    return fams, multi
+    fifo = []
+    for seed in ([1, 2] if q else [0, 1, 2, 3, extra_seed]):
+        for W, base_f, N in ((2, lat, 10), (3, lat, 10), (4, lat5, 12)):
+            ks = list(range(1, N)) if not q else sorted({1, N // 2} | set(range(N - W, N)))
+            fifo.append((dict(base_f, seed=seed, N=N), W, ks))
+    if not q:
+        fifo.append((dict(tu, seed=1, N=10), 3, list(range(1, 10))))
+    else:
+        fifo.append((dict(tu, seed=1, N=8), 3, [3, 6, 7]))
+    return fams, multi, fifo
 
 
 def chains_for(ctx, N):
@@ -428,8 +443,34 @@ def chains_for(ctx, N):
     return out
 
 
+def step_kinds(ref):
+    """what each step of the (one-worker) reference run did: {step: 'acc2' | 'acc' | 'rej'} (acc2 = accepted zero swap:
+    two data rows appended in one step)"""
+    log = read_log(ref)
+    out_by_idx = {e["idx"]: e for e in log if e["ev"] == "outcome"}
+    kinds = {}
+    for e in log:
+        if e["ev"] == "complete" and e["idx"] in out_by_idx:
+            o = out_by_idx[e["idx"]]
+            kinds[int(e["step"])] = ("acc2" if o["n_ens"] == 2 else "acc") if o["status"] == "ACC" else "rej"
+    return kinds
+
+
+def crash_points(ctx, fam, kinds):
+    # a stop inside step 1 before the first restart file exists leaves nothing to restart from: steps >= 2
+    steps = sorted(c for c in kinds if c >= 2)
+    if not ctx.quick:
+        return [(c, w) for c in steps for w in ("before_toml", "torn", "after_toml")] + [(1, "after_toml")]
+    z = [c for c in steps if kinds[c] == "acc2"][:3]
+    a = [c for c in steps if kinds[c] == "acc"][:2]
+    r = [c for c in steps if kinds[c] == "rej"][:1]
+    out = [(c, w) for c in z + a for w in ("before_toml", "torn")] + [(c, "before_toml") for c in r]
+    out += [(c, "after_toml") for c in (z[:1] + a[:1])]
+    return out
+
+
 # ----------------------------------------------------------------------------- the run
-def run_w1_families(ctx, pool, base, fams, all_splits=True, chains=None, every=True, fresh_one=True):
+def run_w1_families(ctx, pool, base, fams, all_splits=True, chains=None, every=True, fresh_one=True, crashes=None):
     """phase 1 (independent runs) + phase 2 (runs that start from the snapshots of the reference)"""
     p1, p2, checks = [], [], []
     for fi, fam in enumerate(fams):
@@ -472,6 +513,21 @@ def run_w1_families(ctx, pool, base, fams, all_splits=True, chains=None, every=T
             checks.append((fam, ref, d, "steps-split-new-interpreter", (k,), len(p1) - 1, 1))
     # heavier scenarios first
     r1 = pool.map(p1)
+    # stops at the effect boundaries inside treat_output (data rows appended / restart file replaced / torn last row):
+    # the steps are chosen from what the reference run did there (accepted zero swap = two rows, accepted, rejected)
+    if crashes is not None:
+        for fi, fam in enumerate(fams):
+            fb = os.path.join(base, f"f{fi}")
+            ref = os.path.join(fb, "A")
+            kinds = step_kinds(ref)
+            for (c, where) in (crashes(fam, kinds) if callable(crashes) else crashes):
+                ctx.hit(f"crash_step={kinds.get(c, '?')}:{where}")
+                d = os.path.join(fb, f"X{c}{where}")
+                p2.append({"name": f"{fi}:X{c}{where}", "ops": [
+                    {"op": "prepare", "dir": d, "engine": fam["engine"], "cfg": fam_cfg(fam)},
+                    {"op": "leg", "dir": d, "input": "infretis.toml", "leg": 0, "crash": {"step": c, "where": where}},
+                    {"op": "leg", "dir": d, "input": "restart.toml", "leg": 1}]})
+                checks.append((fam, ref, d, f"crash-{where}", (c,), len(p2) - 1, 2))
     r2 = pool.map(p2)
     ok_ref = {}
     for i, sc in enumerate(p1):
@@ -490,6 +546,80 @@ def run_w1_families(ctx, pool, base, fams, all_splits=True, chains=None, every=T
         res = (r1 if phase == 1 else r2)[idx]
         good += 1 if check_w1(ctx, fam, ref, d, kind, chain, res) else 0
     return good, len(checks)
+
+
+def run_multi_fifo(ctx, pool, base, groups):
+    """several workers, completion order fifo: the restart re-issues the recorded jobs with their own streams and
+    re-picks the lost one from the restored stream position, so the restarted run is byte-identical to the straight one.
+    groups = [(fam, W, [k, ...])]; every k incl. the last ones (fewer steps left than workers)."""
+    scs, checks = [], []
+    for gi, (fam, W, ks) in enumerate(groups):
+        ref = os.path.join(base, f"g{gi}ref")
+        scs.append({"name": f"g{gi}ref", "ops": multi_ops(ref, fam, W, "fifo", ())})
+        ref_i = len(scs) - 1
+        for k in ks:
+            d = os.path.join(base, f"g{gi}k{k}")
+            scs.append({"name": f"g{gi}k{k}", "ops": multi_ops(d, fam, W, "fifo", (k,))})
+            checks.append((fam, W, k, ref, ref_i, d, len(scs) - 1))
+    res = pool.map(scs)
+    for fam, W, k, ref, ref_i, d, di in checks:
+        rep = {"engine": fam["engine"], "moves": fam["moves"], "mtag": fam["mtag"], "seed": fam["seed"], "N": fam["N"],
+               "nintf": fam["nintf"], "delete_old": fam["delete_old"], "cap": fam.get("cap"), "workers": W, "policy": "fifo",
+               "kind": "multi-fifo-split", "chain": [k]}
+        tag = f"{fam_tag(fam)} W={W} fifo split after step {k}"
+        ctx.count(1, engine=fam["engine"], kind="multi-fifo-split", workers=W,
+                  steps_left=("<workers" if fam["N"] - k < W else ">=workers"))
+        ctx.distinct((fam["engine"], fam["mtag"], fam["seed"], fam["N"], W, "fifo-split", k))
+        for r in (res[ref_i], res[di]):
+            if not r.get("ok"):
+                ctx.fail("C06:run-raised", f"{tag}: {r.get('error')}", dict(rep, trace=r.get("trace")))
+                break
+        else:
+            leg_predicates(ctx, fam, W, read_log(d), tag, rep)
+            a, b = effective_submits(read_log(ref)), effective_submits(read_log(d))
+            ka, kb = [job_key(x) for x in a], [job_key(x) for x in b]
+            diff = compare_dirs(ref, d, same_path_set=not fam["delete_old"])
+            if ka != kb:
+                i = next((i for i, (x, y) in enumerate(zip(ka, kb)) if x != y), min(len(ka), len(kb)))
+                extra = [(x["ens"], x["pn"]) for x in b[len(a):]]
+                sig = ("C06:restart:jobs-issued-that-the-straight-run-never-issued" if len(kb) > len(ka) and ka == kb[:len(ka)]
+                       else "C06:restart:different-job-picked")
+                ctx.fail(sig, f"{tag}: {len(a)} jobs in one go, {len(b)} with the restart (first difference at job {i}"
+                              f"{', extra jobs ' + str(extra) if extra else ''})"
+                              + (f"; {diff['file']} line {diff['line']}: {diff['other']!r} vs {diff['ref']!r}" if diff else ""),
+                         dict(rep, first_differing_job=i, first_difference=diff))
+            elif diff is not None:
+                ctx.fail("C06:restart:files-differ", f"{tag}: {diff['file']} line {diff['line']}: {diff['other']!r} vs "
+                                                     f"{diff['ref']!r}", dict(rep, first_difference=diff))
+
+
+def leg_predicates(ctx, fam, W, log, tag, rep):
+    """per leg of a run with restarts, on the REAL code: the initiation after a (re)start issues exactly
+    min(workers, steps left) jobs; a run that finished leaves no job in flight in its restart file"""
+    by_leg = {}
+    for ev in log:
+        by_leg.setdefault(ev["leg"], []).append(ev)
+    for leg, evs in sorted(by_leg.items()):
+        start = evs[0]
+        cstep0 = int(start.get("recorded_cstep") or 0) if leg > 0 else 0
+        n_init = 0
+        for e in evs[1:]:
+            if e["ev"] in ("complete", "kill", "leg-end"):
+                break
+            if e["ev"] == "submit":
+                n_init += 1
+        want = min(W, fam["N"] - cstep0)
+        if n_init != want:
+            recorded = start.get("recorded_locked") or []
+            ctx.fail("C06:reissue:initiation-issues-other-than-min-workers-steps-left",
+                     f"{tag}: (re)start {leg} at cstep {cstep0} of {fam['N']} with {W} workers issued {n_init} jobs before the "
+                     f"first result, {want} are due (recorded in flight: {recorded})", dict(rep, restart=leg))
+        if any(e["ev"] == "leg-end" and e.get("how") == "finished" for e in evs):
+            fl = evs[-1].get("final_locked")
+            if fl:
+                ctx.fail("C06:restart:finished-run-leaves-jobs-in-flight",
+                         f"{tag}: the run finished (leg {leg}) but its restart.toml lists in-flight jobs {fl}",
+                         dict(rep, restart=leg))
 
 
 def run_multi(ctx, pool, base, multi):
@@ -548,7 +678,7 @@ def run(ctx):
                 "for several workers one evaluation = one chain of killed-and-restarted runs (run twice) with the re-issue "
                 "predicates, plus one per re-issued job; distinct = distinct (engine, moves, seed, N, kind of stop, split chain "
                 "/ workers, completion order)")
-    fams, multi = plan(ctx)
+    fams, multi, fifo = plan(ctx)
     base = tempfile.mkdtemp(prefix="vp-c06-", dir=SCRATCH)
     pool = legs.LegPool(NPROC)
     try:
@@ -556,10 +686,11 @@ def run(ctx):
         fams.sort(key=lambda f: 0 if f["engine"] == "turtle" else 1)
         good, total = run_w1_families(ctx, pool, os.path.join(base, "w1"), fams, all_splits=True,
                                       chains=lambda fam: chains_for(ctx, fam["N"]),
-                                      every=True)
+                                      every=True, crashes=lambda fam, kinds: crash_points(ctx, fam, kinds))
         ctx.extra["one_worker_runs_identical"] = f"{good}/{total}"
         ctx.extra["turtle_maxop_last_digit_lines_forgiven"] = ROUNDED["lines"]
         run_multi(ctx, pool, os.path.join(base, "multi"), multi)
+        run_multi_fifo(ctx, pool, os.path.join(base, "fifo"), fifo)
         ctx.sample({"families": [fam_tag(f) for f in fams][:12]})
         ctx.sample({"multi": [(fam_tag(f), W, p, list(k)) for f, W, p, k in multi][:8]})
     finally:
@@ -614,12 +745,17 @@ def replay(ctx, obj):
             if r.get("workers", 1) == 1:
                 chain = tuple(r.get("chain", ()))
                 kind = r.get("kind", "steps-split")
-                if kind == "twice" or not chain:
+                if kind.startswith("crash-"):
+                    run_w1_families(ctx, pool, base, [fam], all_splits=[], chains=[], every=False, fresh_one=False,
+                                    crashes=[(chain[0], kind[len("crash-"):])])
+                elif kind == "twice" or not chain:
                     run_w1_families(ctx, pool, base, [fam], all_splits=[], chains=[], every=False, fresh_one=False)
                 elif len(chain) == 1:
                     run_w1_families(ctx, pool, base, [fam], all_splits=[chain[0]], chains=[], every=False, fresh_one=False)
                 else:
                     run_w1_families(ctx, pool, base, [fam], all_splits=[], chains=[chain], every=False, fresh_one=False)
+            elif r.get("kind") == "multi-fifo-split":
+                run_multi_fifo(ctx, pool, base, [(fam, r["workers"], list(r["chain"]))])
             else:
                 run_multi(ctx, pool, base, [(fam, r["workers"], r["policy"], tuple(r["chain"]))])
         finally:
